@@ -49,7 +49,7 @@ for site, fn in GATE_SITES:
             H("gate_%s_%s_%s" % (site, src, r), "mutg.rs", "MUT(gate)", ["C15", "C09"], "quick",
               "rate %s; every value of the argument type; %s" % ("0.0" if r == "r0" else "1.0",
                                                                  ARB16 if src == "arb" else "all PRNG word streams"),
-              stubs=RNG_STUBS if src == "rng" else [], funcs=[fn, "GenerationSource::gen_f64"])
+              stubs=RNG_STUBS if src == "rng" else [], funcs=[fn, "GenerationSource::gen_f64"], thorough_only_for=["C09"])
 
 # ---------------------------------------------------------------------------------------------------
 # TAIL — cleanup_for_stop against shadow-state contracts (C01, C05, C09, C10, C11)
@@ -269,7 +269,7 @@ for n, b in [("firstwins_int_offbyone_then_boundary_r1", "[OffByOne, Boundary], 
              ("firstwins_bytes_character_first_r1", "[Character, StringLength] on 2 symbolic bytes, rate 1.0: Character's contract"),
              ("firstwins_bytes_r0", "[StringLength, Character] on 2 symbolic bytes, rate 0.0: unchanged")]:
     H(n, "mutf.rs", "MUT(first-wins)", ["C15", "C16", "C09"], "quick", b + "; every value; fuzzer bytes 0..24",
-      stubs=ENV_STUBS, funcs=["Generator::{mutate_int,mutate_float,mutate_bytes,mutate_memo_index}"], cost=2)
+      stubs=ENV_STUBS, funcs=["Generator::{mutate_int,mutate_float,mutate_bytes,mutate_memo_index}"], cost=2, thorough_only_for=["C09"])
 
 # ---------------------------------------------------------------------------------------------------
 # REACH — enabling recipes on the real generator (C12)
@@ -287,10 +287,12 @@ for t in ["pop", "dup", "append", "appends", "setitem", "setitems", "additems", 
 H("table_as_u8_matches_cpython", "table.rs", "TABLE", ["C04", "C05", "C12"], "quick", "all 68 opcode kinds (symbolic index)",
   funcs=["OpcodeKind::as_u8"])
 for pp in range(6):
+    _tof = [] if pp in (0, 2, 5) else ["C05", "C11"]
     H("table_sound_p%d" % pp, "table.rs", "TABLE", ["C05", "C12"], "quick",
-      "protocol %d: every entry (symbolic index) introduced in protocol <= P; no entry twice (symbolic index pair)" % pp, funcs=["PICKLE_OPCODES"])
+      "protocol %d: every entry (symbolic index) introduced in protocol <= P; no entry twice (symbolic index pair)" % pp, funcs=["PICKLE_OPCODES"],
+      thorough_only_for=_tof)
     H("table_complete_p%d" % pp, "table.rs", "TABLE", ["C12", "C05", "C11"], "quick",
-      "protocol %d: every CPython opcode with proto <= P (symbolic index) is listed" % pp, funcs=["PICKLE_OPCODES"])
+      "protocol %d: every CPython opcode with proto <= P (symbolic index) is listed" % pp, funcs=["PICKLE_OPCODES"], thorough_only_for=_tof)
 
 # ---------------------------------------------------------------------------------------------------
 # MUT(contract), POST — C16
@@ -302,9 +304,9 @@ MUTC = [("bitflip_int", "BitFlipMutator::mutate_int: exactly one bit differs"), 
         ("memoidx_unsafe", "MemoIndexMutator(unsafe): < 1000")]
 for site, what in MUTC:
     H("mutc_%s_arb" % site, "mutc.rs", "MUT(contract)", ["C16", "C09"], "quick",
-      what + "; every argument value; rate symbolic in [0,1]; fuzzer bytes 0..24", funcs=[what.split(":")[0]])
+      what + "; every argument value; rate symbolic in [0,1]; fuzzer bytes 0..24", funcs=[what.split(":")[0]], thorough_only_for=["C09"])
     H("mutc_%s_rng" % site, "mutc.rs", "MUT(contract)", ["C16", "C09"], "quick",
-      what + "; every argument value; rate symbolic in [0,1]; all PRNG word streams", stubs=RNG_STUBS, funcs=[what.split(":")[0]])
+      what + "; every argument value; rate symbolic in [0,1]; all PRNG word streams", stubs=RNG_STUBS, funcs=[what.split(":")[0]], thorough_only_for=["C09"])
 for L in range(4):
     H("mutc_character_bytes_l%d" % L, "mutc.rs", "MUT(contract)", ["C16", "C09"], "quick",
       "CharacterMutator::mutate_bytes on every byte string of length %d: same length, <= 1 position changed, None on empty; rate symbolic; fuzzer bytes 0..20" % L,
